@@ -1037,3 +1037,66 @@ def r_number_tensor_siblings(prog: Program, col: Collector, refs: Refs, cat: Cat
     if not n_sites:
         col.unresolved("funsor.terms::Number/Tensor sibling branches", "no function with separate Number and Tensor branches computing data found", "funsor/terms.py")
 
+
+# ---------------------------------------------------------------------- occurrence counts are taken over the operand sequence
+
+
+def r_operand_multiplicity(prog: Program, col: Collector, refs: Refs, cat: Catalogue, rule: str):
+    """A Contraction rule that decides where to reduce a variable by counting in how many operands it occurs must count over the
+    operand *sequence*: terms are cons-hashed, so a dict or set keyed by the operands holds a repeated operand once
+    (x[i] * x[i] * y[j]: `i` then looks like it occurs in one operand and its reduction is pushed into a single copy)."""
+    col.rule(rule, "occurrence counts of reduced variables are taken over the operand sequence, with repetition", floor=1)
+    n = 0
+    for r in cat.registrations:
+        f = r.target
+        if f is None or not r.pattern or isinstance(f.node, ast.Lambda) or refs.resolve(r.pattern[0]) != "funsor.cnf.Contraction" or len(f.positional) < 4:
+            continue
+        terms_p = f.positional[3]
+        vararg = f.node.args.vararg.arg if f.node.args.vararg else None
+        seq_names = {terms_p, vararg} - {None}
+        counters = set()
+        local_defs: Dict[str, List[ast.AST]] = {}
+        for x in walk_no_nested(f.node):
+            if isinstance(x, ast.Assign) and len(x.targets) == 1 and isinstance(x.targets[0], ast.Name):
+                local_defs.setdefault(x.targets[0].id, []).append(x.value)
+                v = x.value
+                if isinstance(v, ast.Call) and norm(v.func).split(".")[-1] == "Counter":
+                    counters.add(x.targets[0].id)
+                if isinstance(v, ast.Call) and isinstance(v.func, ast.Name) and v.func.id in ("list", "tuple") and len(v.args) == 1 and isinstance(v.args[0], ast.Name) and v.args[0].id in seq_names:
+                    seq_names.add(x.targets[0].id)
+                if isinstance(v, ast.ListComp) and len(v.generators) == 1 and not v.generators[0].ifs and isinstance(v.generators[0].iter, ast.Name) and v.generators[0].iter.id in seq_names:
+                    seq_names.add(x.targets[0].id)  # one entry per operand, in order
+        if not counters:
+            continue
+        for lp in [x for x in walk_no_nested(f.node) if isinstance(x, ast.For)]:
+            upd = [c for c in ast.walk(lp) if isinstance(c, ast.Call) and isinstance(c.func, ast.Attribute) and c.func.attr == "update" and isinstance(c.func.value, ast.Name) and c.func.value.id in counters]
+            if not upd:
+                continue
+            n += 1
+            it = lp.iter
+            if isinstance(it, ast.Call) and isinstance(it.func, ast.Name) and it.func.id == "enumerate" and it.args:
+                it = it.args[0]
+            construct = f"{f.fq}::for {norm(lp.target)} in {norm(lp.iter)}"
+            if isinstance(it, ast.Name) and it.id in seq_names:
+                col.ok(construct, "counts every operand occurrence", f.loc(lp))
+                continue
+            base = it.func.value if isinstance(it, ast.Call) and isinstance(it.func, ast.Attribute) and it.func.attr in ("values", "items", "keys") else it
+            collapsing = False
+            if isinstance(base, ast.Name) and base.id in local_defs:
+                for d in local_defs[base.id]:
+                    if isinstance(d, (ast.DictComp, ast.SetComp)) and isinstance(d.generators[0].iter, ast.Name) and d.generators[0].iter.id in seq_names:
+                        key = d.key if isinstance(d, ast.DictComp) else d.elt
+                        if isinstance(key, ast.Name) and isinstance(d.generators[0].target, ast.Name) and key.id == d.generators[0].target.id:
+                            collapsing = True
+                    if isinstance(d, ast.Call) and isinstance(d.func, ast.Name) and d.func.id in ("set", "frozenset", "dict") and d.args and isinstance(d.args[0], ast.Name) and d.args[0].id in seq_names:
+                        collapsing = True
+            if isinstance(base, ast.Call) and isinstance(base.func, ast.Name) and base.func.id in ("set", "frozenset") and base.args and isinstance(base.args[0], ast.Name) and base.args[0].id in seq_names:
+                collapsing = True
+            if collapsing:
+                col.violation(construct, f"the occurrence counter is filled from `{norm(lp.iter)}`, a collection keyed by the operands themselves: a repeated (cons-hashed) operand is counted once, "
+                              "so a variable shared by two copies looks unique and its reduction is pushed into one of them", f.loc(lp))
+            else:
+                col.note(construct, "counter updated while walking another collection (not an occurrence count over the operands)", f.loc(lp))
+    if not n:
+        col.unresolved("funsor.cnf::occurrence counter", "no Counter-based occurrence count found in the Contraction rules", "funsor/cnf.py")
+
